@@ -139,6 +139,11 @@ NewViol == LET e == Ev IN
   ELSE IF e.ev \in {"harnessError", "prefixFailed"} THEN Check("HARNESS", e.ev, FALSE)
   \* results the caller was handed earlier in the script, looked at again after everything that followed: a decoded
   \* response is the caller's own value (C07), and nothing that arrives later may show up in it (C17)
+  \* scripts run on a connection with a past (GenPast.tla): a crash in the past, or the script's own session not coming
+  \* into being because of it
+  ELSE IF e.ev = "pastBroke" THEN Check("C17", "works-whatever-the-connection-did-before", FALSE)
+                                  \cup Check("C05", "no-panic-no-hang", ~(Has(e, "panic") /\ e.panic # "nil"))
+                                  \cup (IF e["in"] = "prefix" THEN Check("C01", "honest-handshake-succeeds", FALSE) ELSE {})
   ELSE IF e.ev = "held" THEN Check("C07", "a-decoded-response-keeps-its-values-when-later-responses-arrive", e.changed = <<>>)
                              \cup Check("C17", "a-decoded-response-keeps-its-values-when-later-responses-arrive", e.changed = <<>>)
   ELSE IF e.ev = "metrics" /\ prevM # NoM /\ mcall.kind # "none"
